@@ -70,6 +70,16 @@ CHECKS = {
    note="Trusted: TLC, hook H4, catch_unwind in the harness, encodings.",
    technique="TLA+ Eval machine with fault injection at every handler invocation (TLC: StopAtFault, NoPoison, context at fault point) + replay with follow-up probes + trace validation",
    design="5/C15"),
+ "C17": dict(
+   text="The conversion rules are TLA+ operators over exact limb arithmetic (module Conv): TLC checks that the accessor x variant matrix is total and that integer() accepts exactly the integral numbers inside i64 whatever their scale, and every cell (6 accessors x 52 universe values) is executed on the real Value. Recorded conversions are validated by TLC: Value::from for every integer type on MIN, MAX, values around 2^63 / 2^64 / 2^95..2^97 and random values (given as exact limb arrays: the same number, or no number at all beyond 96 bits), integer() / float() on random decimals of every scale, f32/f64 incl. NaN, infinities, subnormals and values around the decimal range given as exact (mantissa, exponent) pairs, and the round trips.",
+   note="Known findings (listed in known-findings.txt, printed as KNOWN-FINDING): From<i128/u128/f64/f32> outside the decimal range yields Number(0) (i128::MIN panics in debug builds) - the From signature cannot report failure. Numeric domain sampled at boundaries + random.",
+   technique="TLA+ conversion rules over exact limb arithmetic: TLC-enumerated accessor matrix replayed on the real Value + trace validation of recorded conversions",
+   design="5/C17"),
+ "C18": dict(
+   text="The descriptor store is a TLA+ state machine whose only transition is SetDescriptor; the lookups get_*_descriptor are transcribed as the code writes them (key construction, variant match, fallback) and checked in every reachable state against the reference rendering D (own key only, last registration wins, documented default otherwise) on programs containing all nine kinds, `-` as unary and binary and f as function and reference; NonInterference is an action property. Every history of up to 2 (thorough 3) registrations over 14 keys is replayed in a fresh process of the real engine with marker descriptors and describe() compared string for string; random histories x random parsed programs recorded from fresh processes are validated by TLC.",
+   note="Trusted: TLC's string concatenation, hook H3 (DescriptorManager re-export), the marker closures. Literals in the programs are numbers and booleans.",
+   technique="TLA+ descriptor-store state machine vs reference rendering (TLC exhaustive over registration histories) + replay in fresh processes + trace validation",
+   design="5/C18"),
 }
 NOT_YET = "check not built yet (build in progress; see DESIGN.md section 11)"
 
